@@ -85,7 +85,8 @@ pub fn run_plan(b: u64, plan: &Value, seed: u64, out: &mut Out) -> (u64, bool) {
     for n in 0..100_000u32 {
         val_b = format!("actor conformance value B #{n}").into_bytes();
         target_b = crypto::immutable_target(&val_b);
-        if [16usize, 24, 32].iter().all(|&i| bit(&target_a, i) != bit(&target_b, i)) {
+        // (bit 8 as well: the ghost node - A with bit 8 flipped - is then the closest of all to B)
+        if [8usize, 16, 24, 32].iter().all(|&i| bit(&target_a, i) != bit(&target_b, i)) {
             break;
         }
     }
@@ -106,6 +107,12 @@ pub fn run_plan(b: u64, plan: &Value, seed: u64, out: &mut Out) -> (u64, bool) {
             id
         })
         .collect();
+    // the ghost: a node id far from A (differs at bit 8) at an address with port 0; listed by every peer in `ghost` plans
+    let ghost = plan["ghost"].as_bool().unwrap_or(false);
+    let mut ghost_id = target_a;
+    ghost_id[1] ^= 0x80;
+    ghost_id[19] ^= 0x55;
+    let ghost_addr = SocketAddrV4::new(fake_ip(99), 0);
     let long = plan["long"].as_u64().unwrap_or(0);
     let cadence = if long > 0 { 2000 } else { 250 };
     let mut sim = Sim::new(seed ^ b, NetCfg { lat_min_ms: 10, lat_max_ms: 10, cadence_ms: cadence, ..Default::default() });
@@ -131,7 +138,10 @@ pub fn run_plan(b: u64, plan: &Value, seed: u64, out: &mut Out) -> (u64, bool) {
             Some(x) if x == target_b => "B",
             _ => "S",
         };
-        let listed: Vec<([u8; 20], SocketAddrV4)> = knows(me.idx, t).into_iter().map(|i| all2[i]).collect();
+        let mut listed: Vec<([u8; 20], SocketAddrV4)> = knows(me.idx, t).into_iter().map(|i| all2[i]).collect();
+        if ghost {
+            listed.push((ghost_id, ghost_addr));
+        }
         let nodes = krpc::compact_nodes(&listed);
         let mutable_fields = |sig: i64| -> Vec<(&'static str, B)> {
             let (seq, _, val) = item_of(sig);
@@ -146,6 +156,10 @@ pub fn run_plan(b: u64, plan: &Value, seed: u64, out: &mut Out) -> (u64, bool) {
             "get" | "get_peers" | "get_signed_peers" => lookup_reply(&nodes, me, m, w, &[], true),
             "put" => {
                 let code: i64 = match (store.as_str(), me.idx) {
+                    // per-target patterns: the writes of one target are refused, those of the other acknowledged
+                    ("errA_ackB", _) => if t == "A" { 203 } else { 0 },
+                    ("ackA_errB", _) => if t == "B" { 203 } else { 0 },
+                    ("e301A_ackB", _) => if t == "A" { 301 } else { 0 },
                     ("e301_p1", 0) => 301,
                     ("maj301", 0) | ("maj301", 1) | ("maj301", 2) => 301,
                     ("all302", _) => 302,
@@ -197,7 +211,8 @@ pub fn run_plan(b: u64, plan: &Value, seed: u64, out: &mut Out) -> (u64, bool) {
     let caddr = sim.nodes[c].addr;
     let start_ns = sim.start_ns;
     let ms_of = move |t_ns: u64| (t_ns - start_ns) / MS;
-    let name_of: HashMap<String, &str> = all.iter().enumerate().map(|(i, (_, a))| (a.to_string(), NAMES[i])).collect();
+    let mut name_of: HashMap<String, &str> = all.iter().enumerate().map(|(i, (_, a))| (a.to_string(), NAMES[i])).collect();
+    name_of.insert(ghost_addr.to_string(), "g0");
     let nm = |a: &str| -> String { name_of.get(a).map(|s| s.to_string()).unwrap_or_else(|| a.to_string()) };
     let hex_of: HashMap<&str, String> = [("A", Id::from(target_a).to_string()), ("B", Id::from(target_b).to_string()), ("S", Id::from(self_id).to_string())].into_iter().collect();
     let snap0 = match sim.snapshot(c) {
@@ -220,7 +235,7 @@ pub fn run_plan(b: u64, plan: &Value, seed: u64, out: &mut Out) -> (u64, bool) {
     }
     out.line(&json!({"e":"reset","b":b,"tid_base":base_tid,"plan":plan,"rt0":rt0,"rt_seen0":Value::Object(rt_seen0),"infl0":infl0,"cap0":snap0.inflight.capacity,
         "cache0":Value::Object(cache0),"last_refresh":ms_of(now0 - snap0.last_table_refresh_age_ns),"last_ping":ms_of(now0 - snap0.last_table_ping_age_ns),
-        "server":snap0.server_mode,"firewalled":snap0.firewalled,"t_ms":ms_of(now0)}));
+        "server":snap0.server_mode,"firewalled":snap0.firewalled,"t_ms":ms_of(now0),"ghost":ghost}));
     let mut lines = 1u64;
     let call_names: Vec<String> = plan["calls"].as_array().map(|a| a.iter().map(|x| x.as_str().unwrap_or("getA1").to_string()).collect()).unwrap_or_default();
     let gaps: Vec<u64> = plan["gaps"].as_array().map(|a| a.iter().map(|x| x.as_u64().unwrap_or(0)).collect()).unwrap_or_default();
@@ -495,7 +510,10 @@ pub fn run(args: &Args) -> i32 {
     let mut lines = 0u64;
     for plan in &plans {
         let has_silent = plan["silent"].as_array().map(|a| !a.is_empty()).unwrap_or(false);
-        let pm = if plan["long"].as_u64().unwrap_or(0) > 0 { long_permille } else if has_silent { silent_permille } else { permille };
+        let cross = plan["store"].as_str().map(|s| s.contains("A_")).unwrap_or(false) || plan["ghost"].as_bool().unwrap_or(false);
+        // long plans with a second call minutes after the first (token staleness of the cached lookup) always run
+        let repub = plan["long"].as_u64().unwrap_or(0) > 0 && plan["gaps"].as_array().map(|g| g.iter().any(|x| x.as_u64().unwrap_or(0) >= 200_000)).unwrap_or(false);
+        let pm = if repub { 1000 } else if plan["long"].as_u64().unwrap_or(0) > 0 { long_permille } else if has_silent || cross { silent_permille } else { permille };
         let take = only.map(|o| o == b).unwrap_or_else(|| pm >= 1000 || rng.below(1000) < pm);
         if take {
             let (n, _) = run_plan(b, plan, seed, &mut out);
